@@ -1,15 +1,22 @@
-\* 1 watcher (redirector) x 2 workers x 2 channels, chunks 1..3 against buffer 2, 4 generations, any fd numbers
+\* C17, the main exhaustive configuration (thorough tier; harness/check_c17.py generates this and the others:
+\* MC["one"], overrides for two watchers / three generations / simulation / counterexample search)
+\* 1 watcher x 2 workers x 2 channels, writes of 1..3 units against buffer 2, 2 generations per slot with
+\* fd-number reuse in either channel order, kill path and reap path, per-channel close, stop
 CONSTANTS
   Workers <- W2
   Reds <- R1
   RedOf <- OneRed
-  MaxFd = 5
-  FdAny = TRUE
+  MaxFd = 4
+  FdAny = FALSE
   Buffer = 2
   MaxChunk = 3
   MaxWrite = 3
   PipeCap = 3
-  MaxPid = 4
+  MaxGen = 2
+  MaxWrites = 2
+  MaxCloses = 1
+  Atomic = TRUE
+  Record = FALSE
   DumpAt <- NoDump
   Dev_StaleAfterReap = TRUE
 INIT Init
